@@ -153,9 +153,10 @@ def all_alias(av, depth=0):
 
 
 class Event:
-    __slots__ = ("kind", "target", "fn", "node", "detail", "chain", "value")
+    __slots__ = ("kind", "target", "fn", "node", "detail", "chain", "value", "covered")
 
-    def __init__(self, kind, target, fn, node, detail, chain=(), value=None):
+    def __init__(self, kind, target, fn, node, detail, chain=(), value=None, covered=False):
+        self.covered = covered
         self.kind = kind        # elem-store inplace-call struct-store attr-store item-write list-write group-by
         self.target = target    # AV of the written object (alias set in the analysed function's origins)
         self.fn = fn
@@ -1088,7 +1089,8 @@ class _State:
                 continue   # callee wrote to its own fresh object
             self.res.events.append(Event(ev.kind, tgt, self.fn, node, ev.detail,
                                          ((ev.fn.qualname, getattr(ev.node, "lineno", 0), ev.detail),) + ev.chain,
-                                         ev.value))
+                                         ev.value,
+                                         covered=ev.covered or fn.has_decorator("obsoletes")))
         if fn.has_decorator("obsoletes"):
             # deco.obsoletes: the wrapper marks the receiver (and its ancestors) obsolete
             self.event("obsoletes-call", recv if recv is not None else UNKNOWN, node, f"{fn.name}() is an editor")
@@ -1109,7 +1111,12 @@ class _State:
             return lst(elem if elem is not None else SCALAR)
         if summ.returns is None:
             return NONE
-        return self.subst(summ.returns, mapping) or UNKNOWN
+        out = self.subst(summ.returns, mapping) or UNKNOWN
+        if fn.name == "_new" and out.kind == "lod":
+            # ListOfDicts._new is the only place that records the predecessor
+            out = out.with_(flags=out.flags | {"via-new"},
+                            ref=("new-of", recv.alias if recv is not None else F0))
+        return out
 
     def from_generator(self, fn, recv, elem, node, env):
         """deco.new_from_generator: wrapper returns self._new(<generator>)."""
@@ -1218,7 +1225,7 @@ class _State:
         st = _State(self.I, sub, cenv, self.depth + 1)
         st.exec_block(sub.node.body, cenv)
         for ev in st.res.events:
-            self.res.events.append(Event(ev.kind, ev.target, ev.fn, ev.node, ev.detail, ev.chain, ev.value))
+            self.res.events.append(Event(ev.kind, ev.target, ev.fn, ev.node, ev.detail, ev.chain, ev.value, ev.covered))
         self.res.unclassified += st.res.unclassified
         if sub.is_generator:
             e = None
